@@ -272,8 +272,11 @@ func RunEngineCtx(ctx context.Context, c *Case, st *mstore.Store, withQuery func
 	ctx, cancel := context.WithCancel(ctx)
 	defer cancel()
 	st.Cancel = cancel
+	if c.QCancel {
+		st.Cancel = q.Cancel
+	}
 	for _, rs := range remoteStores {
-		rs.Cancel = cancel
+		rs.Cancel = st.Cancel
 	}
 	if withQuery != nil {
 		withQuery(q, cancel)
